@@ -122,7 +122,53 @@ def run_configs(draw, tree_data, k=3):
 
 
 @st.composite
-def cases(draw, max_levels=4, max_leaves=10, max_genes=36, n_configs=3):
+def wide_trees(draw):
+    """a parent that has to discriminate exactly 255 / 256 / 257 leaf pairs (the capacity of a one-byte index), below the
+    root or below a top-level node; leaf names numbered so that the alphabetical order is not the construction order"""
+    sizes = draw(st.sampled_from([(16, 16), (8, 32), (4, 64), (2, 128), (15, 17), (5, 51), (3, 85), (1, 1, 128), (1, 1, 127),
+                                  (16, 16), (2, 2, 63), (1, 3, 63)]))
+    salt = draw(st.integers(0, 96))
+    cluster, cls = {}, {}
+    k = 0
+    for ci, sz in enumerate(draw(st.permutations(list(sizes)))):
+        kids = []
+        for _ in range(sz):
+            nm = f'k{(k * 37 + salt) % 997:03d}'
+            k += 1
+            kids.append(nm)
+            cluster[nm] = []
+        cls[f'c{(ci * 5 + salt) % 11:02d}'] = kids
+    if draw(st.booleans()):
+        return {'hierarchy': ['class', 'cluster'], 'class': cls, 'cluster': cluster}
+    # the wide parent sits below a top-level node; a second top-level node holds a small class
+    other = [f'k{(kk * 37 + salt) % 997:03d}' for kk in range(k, k + draw(st.integers(1, 3)))]
+    for nm in other:
+        cluster[nm] = []
+    cls['zother'] = other
+    top = {'T0': [c for c in cls if c != 'zother'], 'T1': ['zother']}
+    if draw(st.booleans()):
+        top = {'T1': top['T1'], 'T0': top['T0']}
+    return {'hierarchy': ['top', 'class', 'cluster'], 'top': top, 'class': cls, 'cluster': cluster}
+
+
+@st.composite
+def wide_cases(draw, n_configs=3):
+    tree = draw(wide_trees())
+    n = draw(st.integers(1, 3))
+    n_genes = draw(st.sampled_from([60, 250, 600, 600]))
+    genes = [f'g{i}' for i in draw(gen.shuffled(list(range(n_genes))))]
+    tensor = {'mode': 'sparse_seeded', 'seed': draw(st.integers(0, 2 ** 31 - 1)), 'max_per_direction': draw(st.sampled_from([1, 1, 2, 3]))}
+    drop = draw(st.sampled_from([0, 0, 1, 3]))
+    query = [g for i, g in enumerate(genes) if drop == 0 or i % 10 >= drop] + [f'zz{i}' for i in range(draw(st.integers(0, 2)))]
+    return {'tree': tree, 'genes': genes, 'tensor': tensor, 'dtypes': draw(st.sampled_from(['writer', 'writer', 'int64'])),
+            'query': list(draw(gen.shuffled(query))), 'n_per_utility': n, 'override': {}, 'parent_list': None,
+            'configs': draw(run_configs(tree, n_configs))}
+
+
+@st.composite
+def cases(draw, max_levels=4, max_leaves=10, max_genes=36, n_configs=3, wide=True):
+    if wide and draw(st.integers(0, 9)) == 0:
+        return draw(wide_cases(n_configs=2))
     tree = draw(gen.trees(max_levels=max_levels, max_leaves=max_leaves, min_levels=1, allow_odd=True, mappers=False))
     t = treemodel.Tree(tree)
     # gen.trees favours few leaves; attach up to max_leaves - n extra leaves (at least one to a one-leaf taxonomy, which
@@ -195,6 +241,17 @@ def expand_tensor(spec):
         for i in ten.get('blank', []):
             up[i, :] = False
             down[i, :] = False
+    elif ten['mode'] == 'sparse_seeded':
+        # 0..max_per_direction markers per pair and direction, genes uniform (most genes mark only a few pairs)
+        rng = np.random.default_rng(ten['seed'])
+        m = int(ten['max_per_direction'])
+        for i in range(n_pairs):
+            nu, nd = rng.integers(1, m + 1, 2)
+            if rng.random() < 0.1:
+                nu, nd = (0, nd) if rng.random() < 0.5 else (0, 0)
+            idx = rng.choice(n_genes, size=min(n_genes, nu + nd), replace=False)
+            up[i, idx[:nu]] = True
+            down[i, idx[nu:]] = True
     else:
         rng = np.random.default_rng(ten['seed'])
         w = (1.0 + np.arange(n_genes)) ** (-float(ten.get('hub', 0.0)))
